@@ -89,7 +89,7 @@ pub static INFO: PropInfo = PropInfo {
 };
 
 const QUICK_RUNS: u64 = 4800;
-const THOROUGH_RUNS: u64 = 120_000;
+const THOROUGH_RUNS: u64 = 600_000;
 
 pub fn run(ctx: &Ctx, out: &mut Outcome) {
     if ctx.replay_seed.is_some() {
